@@ -534,6 +534,88 @@ def job_solution_object():
             ok, why = False, 'raised %r' % e
         results.append(discharge(Obligation('RadialSolverSolution.%s returns None when success is False (no numeric result exposed)' % nm, z3.BoolVal(ok), [], with_axioms=False, with_dens=False,
                                             replay=lambda md, why=why: (True, why), key='solution:%s' % nm)))
+    # ownership: with success = True the accessors must not hand out VIEWS of the buffers that __dealloc__ frees (the array would dangle once the solution object is collected). numpy is a
+    # stub that tracks provenance: ascontiguousarray / asarray of a contiguous buffer, reshape, .T and slicing keep the base; np.array(..) copies.
+    class Buf:
+        def __init__(self, name):
+            self.name = name
+
+        def __getitem__(self, idx):
+            return Arr(self)
+
+    class Arr:
+        def __init__(self, base):
+            self.base = base
+
+        def reshape(self, *a, **k):
+            return Arr(self.base)
+
+        @property
+        def T(self):
+            return Arr(self.base)
+
+        def __getitem__(self, idx):
+            return Arr(self.base)
+
+        def copy(self, *a, **k):
+            return Arr(None)
+
+    def base_of(v):
+        return v if isinstance(v, Buf) else (v.base if isinstance(v, Arr) else None)
+
+    class NPown:
+        complex128 = 'complex128'
+
+        @staticmethod
+        def ascontiguousarray(v, dtype=None):
+            return Arr(base_of(v))
+        asarray = ascontiguousarray
+
+        @staticmethod
+        def array(v, dtype=None, copy=True, **k):
+            return Arr(None if copy else base_of(v))
+
+        @staticmethod
+        def copy(v):
+            return Arr(None)
+    freed = []
+    own, _ = loader.load_pyx(SOLVER, names + ['RadialSolverSolution.__dealloc__'], {'np': NPown, 'MAX_NUM_Y': 6, 'PyMem_Free': lambda p: freed.append(p)})
+
+    class S2:
+        success = True
+        num_ytypes, num_slices = 2, 5
+        ytypes = ('tidal', 'loading')
+    s2 = S2()
+    s2.full_solution_ptr, s2.complex_love_ptr = Buf('full_solution'), Buf('complex_love')
+    s2.full_solution_view, s2.complex_love_view = s2.full_solution_ptr, s2.complex_love_ptr      # <T[:n]> ptr: a memoryview OF the same memory
+    own['RadialSolverSolution.__dealloc__'](s2)
+
+    def rp_own(md):
+        code = ("import sys, gc, json\nsys.modules['diffeqpy'] = None\nimport numpy as np\nfrom TidalPy.RadialSolver import radial_solver\n"
+                "from TidalPy.utilities.spherical_helper import calculate_mass_gravity_arrays\n"
+                "N = 40\nr = np.linspace(0.1, 6.0e6, N); rho = np.full(N, 3500.)\nvol, mass, g = calculate_mass_gravity_arrays(r, rho)\nK = np.full(N, 1e11); mu = np.full(N, 5e10 + 1e8j)\n"
+                "solve = lambda: radial_solver(r, rho, g, K, mu, 1e-5, 3500., ('solid',), (False,), (False,), (6.0e6,), degree_l=2)\n"
+                "s = solve(); ref = np.array(s.result, copy=True); kref = np.array(s.k, copy=True)\n"
+                "y = solve().result; k = solve().k; gc.collect()\njunk = [np.full(6 * N, 7.7 + 1j) for _ in range(50)]\n"
+                "print('@@RESULT@@' + json.dumps({'result_from_temporary_equals_kept': bool(np.allclose(y, ref, equal_nan=True)), 'k_from_temporary': str(k), 'k_kept': str(kref)}))\n")
+        import subprocess, tempfile
+        with tempfile.TemporaryDirectory(prefix='verif_c06_') as td:
+            p = subprocess.run([replay.VENV_PY, '-c', code], capture_output=True, text=True, cwd=td, env=dict(os.environ, PYTHONPATH=REPO), timeout=900)
+        if '@@RESULT@@' not in p.stdout:
+            return True, 'the accessor returns a view of a buffer that __dealloc__ frees (current source); the real run ended with return code %s' % p.returncode
+        out = json.loads(p.stdout.split('@@RESULT@@')[-1])
+        bad = (not out['result_from_temporary_equals_kept']) or out['k_from_temporary'] != out['k_kept']
+        return True, 'REAL radial_solver: arrays taken from a solution object that has been collected: %s%s' % (json.dumps(out), ' -> freed memory is read' if bad else ' (memory not yet re-used in this run)')
+    for q in names:
+        nm = q.split('.')[1]
+        if nm == '__getitem__':
+            S2.result = own['RadialSolverSolution.result'](s2)
+            v = own[q](s2, 'tidal')
+        else:
+            v = own[q](s2)
+        b = base_of(v)
+        results.append(discharge(Obligation('RadialSolverSolution.%s (success = True) returns an array that does not alias a buffer released by __dealloc__ (%d buffers released)' % (nm, len(freed)),
+                                            z3.BoolVal(v is not None and not any(b is f for f in freed)), [], with_axioms=False, with_dens=False, replay=rp_own, key='solution:owns:%s' % nm)))
     return {'results': results, 'encoded': loader.ENCODED, 'label': 'solution object'}
 
 
